@@ -67,8 +67,8 @@ Definition digest_matches (x : cval) (dl da db : N) : bool :=
    bytes allocated by the implementation for one decode call, against the model's allocation units:
    a unit is a slice cell (8 bytes), a byte of a byte buffer or a value node (ComponentValue 48 bytes
    + the big.Int / big.Float / string it holds + the breadcrumb string, which grows with nesting). *)
-Definition alloc_per_unit : N := 1536.
-Definition alloc_slack : N := 49152.
+Definition alloc_per_unit : N := 768.
+Definition alloc_slack : N := 32768.
 
 Definition alloc_ok (alloc units : N) : bool := (alloc <=? alloc_per_unit * units + alloc_slack)%N.
 
